@@ -26,6 +26,9 @@ open Opcua Opcua.Srv Opcua.Gen.SrvRobust
     deadline, nothing in packages server / uasc recovers from a panic, and `suitableRefType` no longer
     contains the loop around `slices.Delete` (repaired together with C33). -/
 theorem C29_facts :
+    Gen.SrvSession.subIdByLen = false ∧ Gen.SrvSession.setModeUnknownContinues = true ∧
+    Gen.SrvSession.setModeMismatchContinues = true ∧ Gen.SrvSession.delItemsUnknownContinues = true ∧
+    Gen.SrvSession.delItemsMismatchContinues = true ∧
     dispatcherInline = true ∧ responseWriteDeadline = false ∧ recoverers = [] ∧ refTypeDeleteLoop = false ∧
     signedChunkLengthChecked = true := by decide
 
@@ -107,17 +110,21 @@ theorem C29_crash_iff (st : St) (t : Tok) (r : Req) :
         | none => simp [Out.isCrash]
         | some c => by_cases hc : o = c.token <;> simp [Out.isCrash, hc]
   | setMonitoringMode ids =>
-    have h := itemLoop_isErr st (findSession st t) "MonitoredItemService.SetMonitoringMode" ids
-    simp only [step, Req.name, handlerOf_setMonitoringMode, body, safe, sessionKnown]
-    cases hl : itemLoop st (findSession st t) "MonitoredItemService.SetMonitoringMode" ids with
-    | error e => rw [hl] at h; simp [isErr] at h; simp [Out.isCrash, h]
-    | ok p => rw [hl] at h; simp [isErr] at h; simpa [Out.isCrash] using h
+    have h := itemLoop_isErr st (findSession st t) "MonitoredItemService.SetMonitoringMode"
+      Gen.SrvSession.setModeUnknownContinues Gen.SrvSession.setModeMismatchContinues ids
+    simp only [step, Req.name, handlerOf_setMonitoringMode, body, safe, itemSafe, sessionKnown]
+    cases hl : itemLoop st (findSession st t) "MonitoredItemService.SetMonitoringMode"
+        Gen.SrvSession.setModeUnknownContinues Gen.SrvSession.setModeMismatchContinues ids with
+    | error e => rw [hl] at h; exact h
+    | ok p => rw [hl] at h; exact h
   | deleteMonitoredItems ids =>
-    have h := itemLoop_isErr st (findSession st t) "MonitoredItemService.DeleteMonitoredItems" ids
-    simp only [step, Req.name, handlerOf_deleteMonitoredItems, body, safe, sessionKnown]
-    cases hl : itemLoop st (findSession st t) "MonitoredItemService.DeleteMonitoredItems" ids with
-    | error e => rw [hl] at h; simp [isErr] at h; simp [Out.isCrash, h]
-    | ok p => rw [hl] at h; simp [isErr] at h; simpa [Out.isCrash] using h
+    have h := itemLoop_isErr st (findSession st t) "MonitoredItemService.DeleteMonitoredItems"
+      Gen.SrvSession.delItemsUnknownContinues Gen.SrvSession.delItemsMismatchContinues ids
+    simp only [step, Req.name, handlerOf_deleteMonitoredItems, body, safe, itemSafe, sessionKnown]
+    cases hl : itemLoop st (findSession st t) "MonitoredItemService.DeleteMonitoredItems"
+        Gen.SrvSession.delItemsUnknownContinues Gen.SrvSession.delItemsMismatchContinues ids with
+    | error e => rw [hl] at h; exact h
+    | ok p => rw [hl] at h; exact h
   | other n =>
     simp only [step, Req.name, safe]
     cases handlerOf n with
@@ -182,7 +189,7 @@ theorem C29_sig_cover (st : St) (t : Tok) (r : Req) (h : (step st t r).2.isCrash
 /-- session 1 created and activated, session 2 created and activated, subscription 1 (item 1) owned
     by session 1, subscription 2 created without a session -/
 def st2 : St :=
-  { sessions := [⟨1, true, 0, true⟩, ⟨2, true, 0, true⟩], subs := [⟨1, some 1⟩, ⟨2, none⟩], items := [⟨1, 1⟩], nextItem := 1, value := 5 }
+  { sessions := [⟨1, true, 0, true⟩, ⟨2, true, 0, true⟩], subs := [⟨1, some 1⟩, ⟨2, none⟩], items := [⟨1, 1⟩], nextItem := 1, lastSub := 2, value := 5 }
 
 theorem C29_finding_findservers :
     step { st2 with endpointsEmpty := true } 0 .findServers = ({ st2 with endpointsEmpty := true }, .crash "DiscoveryService.FindServers") ∧
@@ -217,19 +224,21 @@ theorem C29_finding_createmonitoreditems :
     (step st2 1 (.createMonitoredItems 2 1)).2 = .crash "MonitoredItemService.CreateMonitoredItems" ∧
     (step st2 2 (.createMonitoredItems 1 1)).2 = .fault "BadUnexpectedError" := by decide
 
-/-- an unknown monitored item id crashes the server even for an activated session -/
+/-- SetMonitoringMode / DeleteMonitoredItems for an existing item without a session dereference the nil
+    session.  An unknown id no longer does (the lookup is checked first — repaired together with C32;
+    it used to be findings C29.setmonitoringmode-unknown-id / C29.deletemonitoreditems-unknown-id). -/
 theorem C29_finding_setmonitoringmode :
-    (step st2 1 (.setMonitoringMode [9])).2 = .crash "MonitoredItemService.SetMonitoringMode" ∧
-    sig29 st2 1 (.setMonitoringMode [9]) = "C29.setmonitoringmode-unknown-id" ∧
     (step st2 0 (.setMonitoringMode [1])).2 = .crash "MonitoredItemService.SetMonitoringMode" ∧
     sig29 st2 0 (.setMonitoringMode [1]) = "C29.setmonitoringmode-nil-session" ∧
-    (step st2 1 (.setMonitoringMode [1])).2 = .ok "Good" := by decide
+    (step st2 1 (.setMonitoringMode [9, 1])).2 = .ok "BadMonitoredItemIDInvalid,Good" ∧
+    (step st2 2 (.setMonitoringMode [1])).2 = .ok "BadSessionIDInvalid" := by decide
 
 theorem C29_finding_deletemonitoreditems :
-    (step st2 1 (.deleteMonitoredItems [9])).2 = .crash "MonitoredItemService.DeleteMonitoredItems" ∧
-    sig29 st2 1 (.deleteMonitoredItems [9]) = "C29.deletemonitoreditems-unknown-id" ∧
     (step st2 0 (.deleteMonitoredItems [1])).2 = .crash "MonitoredItemService.DeleteMonitoredItems" ∧
-    sig29 st2 0 (.deleteMonitoredItems [1]) = "C29.deletemonitoreditems-nil-session" := by decide
+    sig29 st2 0 (.deleteMonitoredItems [1]) = "C29.deletemonitoreditems-nil-session" ∧
+    step st2 1 (.deleteMonitoredItems [9]) = (st2, .ok "BadMonitoredItemIDInvalid") ∧
+    step st2 2 (.deleteMonitoredItems [1]) = (st2, .ok "BadSessionIDInvalid") ∧
+    step st2 1 (.deleteMonitoredItems [1]) = ({ st2 with items := [] }, .ok "Good") := by decide
 
 /-- Browse with IncludeSubtypes = false no longer reaches a deletion loop (the generated fact says
     the loop is gone): every Browse class is `plain`.  Had the loop stayed, References (31),
@@ -249,7 +258,7 @@ theorem C29_finding_browse_datatype :
 /-- the property at full strength does not hold for the handlers as they are -/
 theorem C29_nopanic_false : ¬ ∀ st t r, (step st t r).2.isCrash = false := by
   intro h
-  have := h st2 1 (.setMonitoringMode [9])
+  have := h st2 0 (.setMonitoringMode [1])
   rw [C29_finding_setmonitoringmode.1] at this
   exact absurd this (by decide)
 
@@ -291,6 +300,6 @@ theorem C29_signed_chunk_safe (chunkLen sigLen : Nat) : signedChunkOutcome chunk
 /-! ### non-vacuity -/
 
 example : safe st2 1 (.deleteSubscriptions [1, 7]) = true ∧ safe st2 0 .read = true ∧ safe st2 1 (.setMonitoringMode [1]) = true := by decide
-example : (runSteps st2 [(0, .read), (1, .setMonitoringMode [9]), (0, .read)]).2 = .crash "MonitoredItemService.SetMonitoringMode" := by decide
+example : (runSteps st2 [(0, .read), (0, .setMonitoringMode [1]), (0, .read)]).2 = .crash "MonitoredItemService.SetMonitoringMode" := by decide
 
 end Opcua.Props.C29
